@@ -474,7 +474,64 @@ func writeReplay(path, id string, in *jobInst, f *FindingJSON) {
 var harnessFnRe = regexp.MustCompile(`(?m)^func (vf[A-Za-z0-9_]+)\(\)\s*\{`)
 
 // nativeReplay runs the harness natively with the recorded inputs and reports whether the same failure occurs.
+// stressMemo remembers the outcome of the stress replay per harness instance (it is expensive and
+// every deadlock finding of one instance describes the same kind of hang).
+var stressMemo = map[string]string{}
+
+// nativeReplay replays a finding against the real code.  A deadlock finding whose recorded
+// schedule cannot be forced natively (the decisive step lies inside the Go runtime, e.g. the
+// wake-up of a blocked socket read) is retried as a stress replay: the same harness, no forced
+// schedule, network sends multiplied, repeated; it counts as reproduced only if the real code
+// really hangs.
 func nativeReplay(work, replayPath string) (bool, string) {
+	ok, detail := nativeReplayOnce(work, replayPath, replayForced)
+	if ok {
+		return ok, detail
+	}
+	data, err := os.ReadFile(replayPath)
+	if err != nil {
+		return ok, detail
+	}
+	var rf ReplayFile
+	if json.Unmarshal(data, &rf) != nil || rf.Schedule == nil {
+		return ok, detail
+	}
+	// the recorded schedule could not be forced (goroutines of the code under test that the
+	// harness does not drive, hand-overs inside harness intrinsics): let the real code run freely
+	if ok1, d1 := nativeReplayOnce(work, replayPath, replayFree); ok1 {
+		return true, d1 + " (free-running replay)"
+	}
+	if rf.Kind != "deadlock" {
+		return ok, detail
+	}
+	key := rf.Harness + "@" + fmt.Sprint(rf.Case)
+	if m, done := stressMemo[key]; done {
+		return m != "", firstNonEmpty(m, detail)
+	}
+	ok2, d2 := nativeReplayOnce(work, replayPath, replayStress)
+	if ok2 {
+		stressMemo[key] = d2 + " (stress replay: no forced schedule, sends multiplied)"
+		return true, stressMemo[key]
+	}
+	stressMemo[key] = ""
+	return false, detail
+}
+
+const (
+	replayForced = iota
+	replayFree
+	replayStress
+)
+
+func firstNonEmpty(a, b string) string {
+	if a != "" {
+		return a
+	}
+	return b
+}
+
+func nativeReplayOnce(work, replayPath string, mode int) (bool, string) {
+	stress := mode == replayStress
 	data, err := os.ReadFile(replayPath)
 	if err != nil {
 		return false, err.Error()
@@ -510,7 +567,7 @@ func nativeReplay(work, replayPath string) (bool, string) {
 			}
 		}
 	}
-	if rf.Schedule != nil {
+	if rf.Schedule != nil && mode == replayForced {
 		// force the recorded schedule: insert vfSched("<file:line>") before the statements at the
 		// recorded scheduling points, in overlay copies of the repo files (and of the harness files)
 		byFile := map[string]map[int]string{}
@@ -530,6 +587,35 @@ func nativeReplay(work, replayPath string) (bool, string) {
 			}
 			byFile[f][line] = pt
 		}
+		// goroutines of the code under test are recognised by the function literal they run
+		goByFile := map[string]map[int]string{}
+		addSite := func(name string) {
+			if !strings.HasPrefix(name, "go@") {
+				return
+			}
+			site := name[3:]
+			if i := strings.LastIndexByte(site, '#'); i >= 0 {
+				site = site[:i]
+			}
+			i := strings.LastIndexByte(site, ':')
+			if i < 0 {
+				return
+			}
+			var line int
+			fmt.Sscanf(site[i+1:], "%d", &line)
+			f := filepath.Join(repoDir, site[:i])
+			if goByFile[f] == nil {
+				goByFile[f] = map[int]string{}
+			}
+			goByFile[f][line] = site
+			if byFile[f] == nil {
+				byFile[f] = map[int]string{}
+			}
+		}
+		for _, sw := range rf.Schedule.Switches {
+			addSite(sw.G)
+			addSite(sw.Next)
+		}
 		k := 1000
 		for f, lines := range byFile {
 			var src []byte
@@ -541,7 +627,7 @@ func nativeReplay(work, replayPath string) (bool, string) {
 			if src == nil {
 				continue
 			}
-			out, err := instrumentSource(f, src, lines)
+			out, err := instrumentSource(f, src, lines, goByFile[f])
 			if err != nil {
 				return false, "cannot instrument " + f + ": " + err.Error()
 			}
@@ -608,6 +694,11 @@ func TestVFReplay(t *testing.T) {
 	cmd := exec.Command("go", "test", "-v", "-vet=off", "-count=1", "-run", "^TestVFReplay$", "-timeout", "60s", "-overlay", ovPath, "./"+rf.Pkg)
 	cmd.Dir = repoDir
 	cmd.Env = append(os.Environ(), "VF_REPLAY="+replayPath, "VF_HARNESS="+rf.Harness, "GOFLAGS=-mod=mod")
+	if stress {
+		cmd.Env = append(cmd.Env, "VF_STRESS=1", "VF_REPEAT=25")
+	} else if mode == replayFree {
+		cmd.Env = append(cmd.Env, "VF_FREE=1", "VF_REPEAT=3")
+	}
 	if rf.Synctest {
 		cmd.Env = append(cmd.Env, "VF_SYNCTEST=1")
 	}
